@@ -46,6 +46,10 @@ STATEMENTS = {
     'repeat in group "G" as x on x': [('A', 'set_power'), ('B', 'set_power')],
     'repeat in "Nowhere" and "B" as x set x': [('B', 'set_color')],
     'repeat in group "NoGroup" as x with b from 1 to 50 begin brightness b set x end': [],
+    'repeat in group "NoGroup" as x with h cycle begin hue h set x end': [], 'repeat in location "NoLoc" as x with h cycle 90 on x': [],
+    'repeat in "Nowhere" as x with h cycle begin hue h set x end': [],
+    # row/column numbers far beyond any tile, on lights that have no tiles at all
+    'set "A" row 12': [], 'set "Nowhere" column 20 30': [], 'set "MZ" row 100 column 200': [], 'set "B" begin stage row 9 column 40 end': [],
 }
 MISMATCH = [s for s, reqs in STATEMENTS.items() if not reqs or 'Nowhere' in s or 'NoGroup' in s or 'NoLoc' in s]
 PRELUDE = 'hue 120 saturation 50 brightness 25 kelvin 2700 duration 1\n'
